@@ -114,6 +114,11 @@ fn c11(rng: &mut Rng, out: &mut Fails) {
 }
 
 fn c14(rng: &mut Rng, out: &mut Fails) {
+    // abscissae clustered near zero (powers far below machine epsilon still count)
+    { let x: Vec<f64> = (0..10).map(|k| k as f64 * 1e-8).collect(); let y: Vec<f64> = x.iter().map(|t| 51. + 3e7 * t + 2e15 * t * t).collect();
+      let r = catch(|| { let mut p = PolynomialRegressor::new(2); p.fit(&x, &y); p.predict(&x) });
+      match r { None => fail(out, "PolynomialRegressor::fit", "C14.no_panic", "x = k*1e-8, quadratic".into(), "panic".into(), "fit".into()),
+          Some(pred) => for (a, b) in pred.iter().zip(&y) { if !close(*a, *b, 1e-5) { fail(out, "PolynomialRegressor::fit", "C14.fit.reproduce", format!("x = k*1e-8 (k=0..9), y = 51 + 3e7 x + 2e15 x^2: y={:?}", y), format!("{:?}", pred), format!("{:?}", y)); break; } } } }
     for case in 0..60 {
         let deg = rng.below(6);
         let n = deg + 1 + rng.below(12);
